@@ -252,9 +252,12 @@ package plugin
 //@ func (*runningStep).hasCancellationHandler
 //@   requires wfstep(r)
 //@   modifies nothing
+//@   ensures [true-exactly-when-the-step-declares-a-handler-for-the-cancel-signal] result == \
+//@        (indom(signalHandlersOf(r.stepSchema), plugin.CancellationSignalSchema.IDValue) && signalHandlersOf(r.stepSchema)[plugin.CancellationSignalSchema.IDValue] != nil)
 //@ func (*runningStep).getCancellationHandler
 //@   requires wfstep(r)
 //@   modifies nothing
+//@   ensures [the-declared-handler-of-the-cancel-signal] result == signalHandlersOf(r.stepSchema)[plugin.CancellationSignalSchema.IDValue]
 //
 //@ func (*runningStep).cancelStep
 //@   requires wfstep(r) && held(r.lock) && lockinv(r)
@@ -269,7 +272,14 @@ package plugin
 //@   modifies r.container, ghost openconn
 //@   ensures ctxdone(r.ctx)
 //@   ensures [opens-no-connection] forall p deployer.Plugin :: openconn(p) ==> old(openconn(p))
+// What the code does today: every caller marks the step closed before it calls closeComponents, which
+// then returns at once ("already closed"). The next clause is therefore true - ForceClose's always-nil
+// result rests on it - and the assertion after it, which is what the property asks for, fails: a close
+// request never closes the container (listed as a known finding).
 //@   ensures [nothing-to-close-once-the-step-is-marked-closed] old(atomicval(&r.closed)) ==> result == nil
+//@   site call Unlock#1 assert [a-close-request-closes-the-deployed-container] r.container == nil && \
+//@        (at(locked, r.container) != nil ==> called(Close, 2) && callrecv(Close, 2) == at(locked, r.container))
+//@   site call Lock#1 snapshot locked
 //@ func (*runningStep).forceClose
 //@   requires wfstep(r) && nolocks()
 //@   modifies r.container, ghost openconn
